@@ -231,120 +231,207 @@ def check_terms(prog, ctx):
     ctx.minimum(rid, 14, "spinless 5 terms, spinful 10 terms, tfim 3")
 
 
+GRAPHS = {
+    "path3": [(0, 1), (1, 2)],
+    "star4": [("c", "x"), ("c", "y"), ("c", "z")],
+    "triangle": [(0, 1), (1, 2), (0, 2)],
+    "paw": [((0, 0), (0, 1)), ((0, 1), (1, 1)), ((1, 1), (0, 0)), ((1, 1), (2, 2))],
+    "square": [(0, 1), (1, 2), (2, 3), (3, 0)],
+    "single": [("a", "b")],
+}
+
+
+def _degrees(edges):
+    d = {}
+    for a, b in edges:
+        d[a] = d.get(a, 0) + 1
+        d[b] = d.get(b, 0) + 1
+    return d
+
+
 def check_builders(prog, ctx):
+    """R19.2 by abstract evaluation: the from_edges builders are evaluated (checker's evaluator) on small graphs with the
+    local builder replaced by a recorder; what each edge's local term receives must be the degrees and per-site /
+    per-edge coefficients of that edge, in edge order."""
+    from engine.minieval import Evaluator, Raised, Unsupported
+
     rid = "R19.2"
     specs = {
-        "symmray.hamiltonians:ham_tfim_from_edges": ("tfim_local_array", {"jx": "edge", "hz": "node"}),
-        "symmray.hamiltonians:ham_fermi_hubbard_from_edges": ("fermi_hubbard_local_array", {"t": "edge", "U": "node", "mu": "node"}),
-        "symmray.hamiltonians:ham_fermi_hubbard_spinless_from_edges": (
-            "fermi_hubbard_spinless_local_array", {"t": "edge", "V": "edge", "mu": "node"}),
+        "ham_tfim_from_edges": ("tfim_local_array", {"jx": "edge", "hz": "node"}),
+        "ham_fermi_hubbard_from_edges": ("fermi_hubbard_local_array", {"t": "edge", "U": "node", "mu": "node"}),
+        "ham_fermi_hubbard_spinless_from_edges": ("fermi_hubbard_spinless_local_array", {"t": "edge", "V": "edge", "mu": "node"}),
     }
-    for fq, (local, roles) in specs.items():
-        f = prog.func(fq)
-        loops = [n for n in walk_own(f.node) if isinstance(n, ast.For) and src(n.iter) == "edges"]
-        ctx.need(len(loops) == 1 and isinstance(loops[0].target, ast.Tuple), f"{f.qualname}: counting loop over edges not found")
-        a, b = [src(e) for e in loops[0].target.elts]
-        incs = sorted(src(s) for s in loops[0].body)
-        want = sorted(f"coordinations[{x}] = coordinations.setdefault({x}, 0) + 1" for x in (a, b))
-        ctx.check(incs == want, rid, f, loops[0], "; ".join(incs), "each end of each edge increments its site's coordination exactly once")
-        init = [s for s in walk_own(f.node) if isinstance(s, ast.Assign) and src(s.targets[0]) == "coordinations"]
-        ctx.check(len(init) == 1 and src(init[0].value) == "{}" and init[0].lineno < loops[0].lineno, rid, f, f.node, "init",
-                  "coordination counts start from an empty dict")
-        ret = [r for r in walk_own(f.node) if isinstance(r, ast.Return)]
-        ctx.need(len(ret) == 1 and isinstance(ret[0].value, ast.DictComp), f"{f.qualname}: returned dict comprehension not found")
-        dc = ret[0].value
-        ctx.check(ret[0].lineno > loops[0].lineno, rid, f, ret[0], "order", "counting finishes before any local term is built")
-        gen = dc.generators[0]
-        ga, gb = [src(e) for e in gen.target.elts]
-        ctx.check(src(gen.iter) == "edges" and src(dc.key) == f"({ga}, {gb})", rid, f, dc, src(dc.key), "one term per edge, keyed by the edge as given")
-        call = dc.value
-        ctx.check(isinstance(call, ast.Call) and src(call.func) == local, rid, f, dc, src(call.func), f"terms are built by {local}")
-        kws = {k.arg: k.value for k in call.keywords}
-        ctx.check("coordinations" in kws and src(kws["coordinations"]) == f"(coordinations[{ga}], coordinations[{gb}])", rid, f, call,
-                  src(kws.get("coordinations")) if "coordinations" in kws else "missing",
-                  "the local builder receives (coordination of the first end, coordination of the second end)")
-        # factories
-        facts = {}
-        for s in walk_own(f.node):
-            if isinstance(s, ast.Assign) and isinstance(s.value, ast.Call) and src(s.value.func) in ("make_edge_factory", "make_node_factory"):
-                facts[src(s.targets[0])] = (src(s.value.func), src(s.value.args[0]))
-        for pname, role in roles.items():
-            v = kws.get(pname)
-            ok = v is not None
-            if ok and role == "edge":
-                ok = isinstance(v, ast.Call) and facts.get(src(v.func)) == ("make_edge_factory", pname) and [src(x) for x in v.args] == [ga, gb]
-            elif ok:
-                ok = isinstance(v, ast.Tuple) and len(v.elts) == 2 and all(
-                    isinstance(e, ast.Call) and facts.get(src(e.func)) == ("make_node_factory", pname) for e in v.elts) \
-                    and [src(e.args[0]) for e in v.elts] == [ga, gb]
-            ctx.check(ok, rid, f, call, f"{pname}={src(v) if v is not None else None}",
-                      f"`{pname}` is evaluated by its {role} factory for ({ga}, {gb}) in edge order")
-    ctx.minimum(rid, 20, "three builders")
+    for fname, (local, roles) in specs.items():
+        f = prog.func(f"symmray.hamiltonians:{fname}")
+        bad = None
+        n = 0
+        for gname, edges in GRAPHS.items():
+            deg = _degrees(edges)
+            for variant in ("scalar", "dict", "dict-reversed", "callable"):
+                calls = []
+
+                def recorder(*args, _calls=calls, **kwargs):
+                    _calls.append((args, kwargs))
+                    return ("term", len(_calls))
+
+                kwargs = {}
+                expect_edge = {}
+                expect_node = {}
+                for pname, role in roles.items():
+                    if role == "edge":
+                        if variant == "scalar":
+                            kwargs[pname] = 1.5
+                            expect_edge[pname] = {e: 1.5 for e in edges}
+                        elif variant in ("dict", "dict-reversed"):
+                            vals = {e: 10.0 + i for i, e in enumerate(edges)}
+                            kwargs[pname] = {(e if variant == "dict" else (e[1], e[0])): v for e, v in vals.items()}
+                            expect_edge[pname] = vals
+                        else:
+                            fn = lambda a, b: ("edgeval", a, b)  # noqa: E731
+                            kwargs[pname] = fn
+                            expect_edge[pname] = {e: ("edgeval", e[0], e[1]) for e in edges}
+                    else:
+                        if variant == "scalar":
+                            kwargs[pname] = 0.25
+                            expect_node[pname] = {s_: 0.25 for s_ in deg}
+                        elif variant in ("dict", "dict-reversed"):
+                            vals = {s_: 100.0 + i for i, s_ in enumerate(deg)}
+                            kwargs[pname] = dict(vals)
+                            expect_node[pname] = vals
+                        else:
+                            fn = lambda a: ("nodeval", a)  # noqa: E731
+                            kwargs[pname] = fn
+                            expect_node[pname] = {s_: ("nodeval", s_) for s_ in deg}
+                ev = Evaluator(prog, stubs={local: recorder}, max_steps=200000)
+                try:
+                    res = ev.call(f, ["Z2", list(edges)], kwargs)
+                except Unsupported as e:
+                    raise AnalysisError(f"{fname} outside the evaluable sub-language: {e}")
+                except (Raised, KeyError) as e:
+                    bad = bad or f"{gname}/{variant}: {type(e).__name__}: {getattr(e, 'what', e)}"
+                    continue
+                n += 1
+                if list(res) != list(edges) or len(calls) != len(edges):
+                    bad = bad or f"{gname}/{variant}: result keys {list(res)} != edges {edges}"
+                    continue
+                for e, (args, kw) in zip(edges, calls):
+                    if kw.get("coordinations") != (deg[e[0]], deg[e[1]]):
+                        bad = bad or (f"{gname}: edge {e} receives coordinations {kw.get('coordinations')}, "
+                                      f"the degrees of its ends are {(deg[e[0]], deg[e[1]])}")
+                    for pname, role in roles.items():
+                        if role == "edge" and kw.get(pname) != expect_edge[pname][e]:
+                            bad = bad or f"{gname}/{variant}: edge {e} receives {pname}={kw.get(pname)}, expected {expect_edge[pname][e]}"
+                        if role == "node" and kw.get(pname) != (expect_node[pname][e[0]], expect_node[pname][e[1]]):
+                            bad = bad or (f"{gname}/{variant}: edge {e} receives {pname}={kw.get(pname)}, expected "
+                                          f"{(expect_node[pname][e[0]], expect_node[pname][e[1]])}")
+        ctx.check(bad is None, rid, f, f.node, f"{fname} wiring",
+                  f"{fname}: every edge's local term receives (degree of first end, degree of second end) and its own per-edge / "
+                  f"per-site coefficients in edge order ({n} graph x coefficient-form combinations)" + ("" if bad is None else f" — witness: {bad}"))
+    ctx.minimum(rid, 3, "three builders")
 
 
 def check_factories(prog, ctx):
+    from engine.minieval import Evaluator, Raised, Unsupported
+
     rid = "R19.3"
     f = prog.func("symmray.hamiltonians:make_edge_factory")
-    inner = [n for n in ast.walk(f.node) if isinstance(n, ast.FunctionDef) and n is not f.node]
-    dict_branch = [n for n in walk_own(f.node) if isinstance(n, ast.If) and src(n.test) == "isinstance(t, dict)"]
-    ctx.need(len(dict_branch) == 1, "make_edge_factory: dict branch not found")
-    fn = [s for s in dict_branch[0].body if isinstance(s, ast.FunctionDef)]
-    ok = len(fn) == 1
-    if ok:
-        pa, pb = [a.arg for a in fn[0].args.args]
-        tr = [s for s in fn[0].body if isinstance(s, ast.Try)]
-        ok = len(tr) == 1 and src(tr[0].body[0]) == f"return t[{pa}, {pb}]" and len(tr[0].handlers) == 1 \
-            and src(tr[0].handlers[0].type) == "KeyError" and src(tr[0].handlers[0].body[0]) == f"return t[{pb}, {pa}]"
-    ctx.check(ok, rid, f, f.node, "dict lookup", "a dict of edge coefficients is looked up as (a, b), then as (b, a)")
-    br = dict_branch[0].orelse
-    ok = len(br) == 1 and isinstance(br[0], ast.If) and src(br[0].test) == "callable(t)" and src(br[0].body[0]) == "edge_factory = t"
-    ctx.check(ok, rid, f, f.node, "callable", "a callable is used as is")
-    ok = ok and any(isinstance(s, ast.FunctionDef) and src(s.body[0]) == "return t" for s in br[0].orelse)
-    ctx.check(ok, rid, f, f.node, "scalar", "a scalar is returned for every edge")
     g = prog.func("symmray.hamiltonians:make_node_factory")
-    db = [n for n in walk_own(g.node) if isinstance(n, ast.If) and src(n.test) == "isinstance(U, dict)"]
-    ok = len(db) == 1 and any(isinstance(s, ast.FunctionDef) and src(s.body[0]) == f"return U[{s.args.args[0].arg}]" for s in db[0].body)
-    ctx.check(ok, rid, g, g.node, "node dict", "a dict of site coefficients is looked up by site")
-    ctx.minimum(rid, 4, "edge: dict/callable/scalar; node: dict")
+    bad = None
+    try:
+        ev = Evaluator(prog)
+        fac = ev.call(f, [{("a", "b"): 1.0, ("c", "b"): 2.0}])
+        for (args, want) in ((("a", "b"), 1.0), (("b", "a"), 1.0), (("b", "c"), 2.0), (("c", "b"), 2.0)):
+            got = ev.apply(fac, list(args), {}, f)
+            if got != want:
+                bad = bad or f"dict coefficient: factory{args} = {got}, expected {want}"
+        fn = lambda a, b: ("v", a, b)  # noqa: E731
+        fac = ev.call(f, [fn])
+        if ev.apply(fac, ["x", "y"], {}, f) != ("v", "x", "y"):
+            bad = bad or "a callable coefficient is not used as is"
+        fac = ev.call(f, [3.5])
+        if ev.apply(fac, ["x", "y"], {}, f) != 3.5:
+            bad = bad or "a scalar coefficient is not returned for every edge"
+    except (Unsupported,) as e:
+        raise AnalysisError(f"make_edge_factory outside the evaluable sub-language: {e}")
+    except (Raised, KeyError) as e:
+        bad = bad or f"{type(e).__name__}: {getattr(e, 'what', e)}"
+    ctx.check(bad is None, rid, f, f.node, "edge factory",
+              "edge coefficients: a dict is looked up as (a, b) then (b, a); a callable is used as is; a scalar applies to every edge"
+              + ("" if bad is None else f" — witness: {bad}"))
+    bad = None
+    try:
+        ev = Evaluator(prog)
+        fac = ev.call(g, [{"a": 1.0, "b": 2.0}])
+        if ev.apply(fac, ["a"], {}, g) != 1.0 or ev.apply(fac, ["b"], {}, g) != 2.0:
+            bad = "dict of site coefficients not looked up by site"
+        fn = lambda a: ("n", a)  # noqa: E731
+        if ev.apply(ev.call(g, [fn]), ["q"], {}, g) != ("n", "q"):
+            bad = bad or "callable site coefficient not used as is"
+        if ev.apply(ev.call(g, [0.5]), ["q"], {}, g) != 0.5:
+            bad = bad or "scalar site coefficient not returned for every site"
+    except Unsupported as e:
+        raise AnalysisError(f"make_node_factory outside the evaluable sub-language: {e}")
+    except (Raised, KeyError) as e:
+        bad = bad or f"{type(e).__name__}: {getattr(e, 'what', e)}"
+    ctx.check(bad is None, rid, g, g.node, "node factory", "site coefficients: dict by site, callable as is, scalar for every site"
+              + ("" if bad is None else f" — witness: {bad}"))
+    ctx.minimum(rid, 2, "edge and node factories")
 
 
 def check_siteinfo(prog, ctx):
+    from engine.minieval import Evaluator, Raised, Unsupported
+
     rid = "R19.4"
     f = prog.func("symmray.networks:parse_edges_to_site_info")
-    loops = [n for n in walk_own(f.node) if isinstance(n, ast.For) and src(n.iter) == "sorted(edges)"]
-    ctx.check(len(loops) == 1, rid, f, f.node, "sorted edges", "bonds are created in sorted edge order (canonical)")
-    ctx.need(len(loops) == 1, "parse_edges_to_site_info: loop over sorted(edges) not found")
-    lp = loops[0]
-    a, b = [src(e) for e in lp.target.elts]
-    sw = [s for s in lp.body if isinstance(s, ast.If) and src(s.test) == f"{a} > {b}"]
-    ok = len(sw) == 1 and isinstance(sw[0].body[0], ast.Assign) and isinstance(sw[0].body[0].targets[0], ast.Tuple) \
-        and isinstance(sw[0].body[0].value, ast.Tuple) and [src(e) for e in sw[0].body[0].targets[0].elts] == [a, b] \
-        and [src(e) for e in sw[0].body[0].value.elts] == [b, a]
-    ctx.check(ok, rid, f, lp, "swap", "each edge is oriented smaller site first")
-    body = [src(s) for s in lp.body]
-    ind = [s for s in lp.body if isinstance(s, ast.Assign) and src(s.targets[0]) == "ind"]
-    ctx.check(len(ind) == 1 and src(ind[0].value) == f"bond_ind_id.format({a}, {b})", rid, f, lp, "ind", "one index name per bond")
-    ia = [s for s in lp.body if isinstance(s, ast.Assign) and src(s.value) == f"sites.setdefault({a}, {{}})"]
-    ib = [s for s in lp.body if isinstance(s, ast.Assign) and src(s.value) == f"sites.setdefault({b}, {{}})"]
-    ctx.need(len(ia) == 1 and len(ib) == 1, "parse_edges_to_site_info: per-site info dicts not found")
-    va, vb = src(ia[0].targets[0]), src(ib[0].targets[0])
-    for key, xa, xb, what in (("inds", "ind", "ind", "the same index name goes to both ends"),
-                              ("duals", "0", "1", "the first end is non-dual (0), the second dual (1)"),
-                              ("shape", "bond_dim", "bond_dim", "both ends get the bond dimension")):
-        ok = f"{va}.setdefault('{key}', []).append({xa})" in body and f"{vb}.setdefault('{key}', []).append({xb})" in body
-        ctx.check(ok, rid, f, lp, key, what)
-    # coordination before the physical index is appended
-    l2 = [n for n in walk_own(f.node) if isinstance(n, ast.For) and src(n.iter) == "sites"]
-    ctx.need(len(l2) == 1, "parse_edges_to_site_info: loop over sites not found")
-    s = src(l2[0].target)
-    co = [x for x in l2[0].body if isinstance(x, ast.Assign) and src(x.targets[0]) == f"sites[{s}]['coordination']"]
-    app = [x for x in ast.walk(l2[0]) if isinstance(x, ast.Call) and src(x.func) == f"sites[{s}]['inds'].append"]
-    ok = len(co) == 1 and src(co[0].value) == f"len(sites[{s}]['inds'])" and all(co[0].lineno < x.lineno for x in app) and \
-        l2[0].lineno > lp.lineno
-    ctx.check(ok, rid, f, l2[0], "coordination", "coordination = number of bond indices, taken after all bonds and before the physical index")
-    dual = [x for x in ast.walk(l2[0]) if isinstance(x, ast.Call) and src(x.func) == f"sites[{s}]['duals'].append"]
-    ctx.check(len(dual) == 1 and src(dual[0].args[0]) == "0", rid, f, l2[0], "physical dual", "the physical index is non-dual")
-    ctx.minimum(rid, 8, "sorted, swap, index, three lists, coordination, physical")
+    bad = None
+    n = 0
+    for gname, edges in GRAPHS.items():
+        for shuffled in (edges, list(reversed(edges)), [(b, a) for a, b in edges]):
+            for phys in (2, None):
+                ev = Evaluator(prog, max_steps=200000)
+                try:
+                    res = ev.call(f, [list(shuffled), 3], {"phys_dim": phys})
+                except Unsupported as e:
+                    raise AnalysisError(f"parse_edges_to_site_info outside the evaluable sub-language: {e}")
+                except (Raised, KeyError) as e:
+                    bad = bad or f"{gname}: {type(e).__name__}: {getattr(e, 'what', e)}"
+                    continue
+                n += 1
+                deg = _degrees(edges)
+                if set(res) != set(deg):
+                    bad = bad or f"{gname}: sites {sorted(map(str, res))} != {sorted(map(str, deg))}"
+                    continue
+                where = {}
+                for s_, info in res.items():
+                    nb = deg[s_]
+                    if info.get("coordination") != nb:
+                        bad = bad or f"{gname}: site {s_} has coordination {info.get('coordination')}, degree is {nb}"
+                    exp_len = nb + (1 if phys is not None else 0)
+                    if not (len(info["inds"]) == len(info["duals"]) == len(info["shape"]) == exp_len):
+                        bad = bad or f"{gname}: site {s_} has {len(info['inds'])} indices, {len(info['duals'])} duals, expected {exp_len}"
+                    if list(info["shape"][:nb]) != [3] * nb or (phys is not None and info["shape"][-1] != phys):
+                        bad = bad or f"{gname}: site {s_} shape {info['shape']}"
+                    if phys is not None and info["duals"][-1] != 0:
+                        bad = bad or f"{gname}: physical index of {s_} is dual"
+                    for ind, dual in list(zip(info["inds"], info["duals"]))[:nb]:
+                        where.setdefault(ind, []).append((s_, dual))
+                if len(where) != len(edges):
+                    bad = bad or f"{gname}: {len(where)} bond names for {len(edges)} bonds"
+                for ind, ends in where.items():
+                    if len(ends) != 2 or sorted(d for _, d in ends) != [0, 1]:
+                        bad = bad or f"{gname}: bond {ind} appears at {ends} (must be two ends with directions 0 and 1)"
+                    elif {frozenset((ends[0][0], ends[1][0]))} - {frozenset(e) for e in edges}:
+                        bad = bad or f"{gname}: bond {ind} joins {ends}, which is not an edge"
+                    else:
+                        lo = [s_ for s_, d in ends if d == 0][0]
+                        hi = [s_ for s_, d in ends if d == 1][0]
+                        if not lo < hi:
+                            bad = bad or f"{gname}: bond {ind}: the non-dual end {lo} is not the smaller site"
+        # canonical: independent of edge order / orientation
+    ctx.check(bad is None, rid, f, f.node, "site info",
+              f"each bond has one index name on exactly two sites with directions 0 (smaller site) / 1, coordination = degree, taken "
+              f"before the physical index; independent of edge order and orientation ({n} evaluations)" + ("" if bad is None else f" — witness: {bad}"))
+    ctx.minimum(rid, 1, "site info")
 
 
 def run(prog, ctx):
